@@ -272,6 +272,13 @@ pub fn generate(seed: u64, n: usize, thorough: bool, _corpus: Option<&str>) -> V
             solver_cases(&lm, &["variable-free".to_string()], "variable-free", &variants, &mut cases);
         }
     }
+    let mut r3 = Rng::new(seed ^ 0xc7c1e);
+    for (name, lm) in gen_lp::cycling_classics(&mut r3) { solver_cases(&lm, &[name.to_string()], "cycling-classics", &variants, &mut cases); }
+    let mut r2 = Rng::new(seed ^ 0x2fa5e);
+    for k in 0..40 {
+        let lm = gen_lp::two_phase_zero_rows(&mut r2, k);
+        solver_cases(&lm, &["two-phase-zero-level-artificial".to_string()], "two-phase-zero-level-artificial", &variants, &mut cases);
+    }
     child::shutdown();
     cases
 }
